@@ -594,6 +594,14 @@ func ruleCapsAndTimeouts(w *World, r *Run, ruleE, ruleF string) {
 					}
 					return nil
 				}
+				// the connection served is one that was made: the dial that produced it succeeded on this path
+				if len(sc.Args) > 0 && sc.Args[0] != nil {
+					for _, dv := range s.Events {
+						if dv.Kind == "call" && dv.Res != nil && dv.Seq < sc.Seq && (res(dv, 0) == sc.Args[0] || mentions(sc.Args[0], res(dv, 0))) && strings.Contains(dv.Callee, "Dial") {
+							r.Check(okBefore(s, dv, sc.Seq), ruleF, fnConnect+" | a connection is served only after its dial succeeded", w.pos(sc.Pos), "ServeConn is reached on a path where "+short(dv.Callee)+" failed: the connection is nil there, and serving it panics in the reconnect loop")
+						}
+					}
+				}
 				h := bf(opts, "Handler")
 				// the handler the loop was given: its http.Handler parameter, or an http.Handler field of its receiver
 				given := func(t *Term) bool {
